@@ -29,8 +29,13 @@ def plans(tier):
                 # bob / the creator through a users entry; two concurrent events on top of the prefix, one plan per
                 # resolution algorithm (the power ordering of v2 / v2.1 reads the effective level, R2; v1 reads it
                 # through the auth rules only) and both directions of the event-ID tie-break
-                (4, "10", 2, "{1}", "FALSE", "FALSE", "FALSE", 8), (5, "10", 2, "{1}", "TRUE", "FALSE", "FALSE", 8),
-                (4, "12", 2, "{1}", "TRUE", "FALSE", "FALSE", 8), (4, "1", 2, "{1}", "FALSE", "FALSE", "FALSE", 8)]
+                (4, "10", 2, "{1}", "FALSE", "FALSE", "FALSE", 8), (4, "12", 2, "{1}", "TRUE", "FALSE", "FALSE", 8),
+                # Start 8 = both in one run, in the version-2 format (sender-chosen event IDs, which the harness
+                # reuses from query to query): consecutive queries hold different power-levels events under one ID
+                (8, "2", 2, "{1}", "TRUE", "FALSE", "FALSE", 8),
+                # power-levels / join-rules events under a non-empty state key in every state set (Start 7), replaced
+                # on one or both forks by the free kinds "plx" / "jrx": (type, state_key) is the key, not the type
+                (7, "10", 2, "{1}", "FALSE", "FALSE", "FALSE", 10), (7, "12", 2, "{1}", "TRUE", "FALSE", "FALSE", 10)]
     out = []
     # one or two versions per resolution algorithm and event format (what differs between the versions of one
     # algorithm are the auth rules, which are C07's subject)
@@ -46,7 +51,7 @@ def plans(tier):
         out.append((3, ver, 2, "{1}", "TRUE", "TRUE", "TRUE"))
         out.append((3, ver, 2, "{1, 2}", "FALSE", "FALSE", "TRUE"))
     for ver in ["12", "org.matrix.hydra.11"]:
-        out.append((2, ver, 2, "{1, 2}", "FALSE", "TRUE", "FALSE", None, '{"alice"}'))
+        out.append((2, ver, 2, "{1, 2}", "FALSE", "TRUE", "FALSE", 7, '{"alice"}'))   # (ForkFrom 5: a million queries, > 1 h)
         out.append((1, ver, 2, "{1}", "TRUE", "FALSE", "TRUE", None, '{"bob"}'))
     out.append((2, "10", 1, "{1}", "FALSE", "FALSE", "FALSE", None, '{"alice"}'))   # meaningless before v12: must change nothing
     # users_default as a dimension of the power levels (Start 4: 50, Start 5: 100, and the free kind "pld")
@@ -54,11 +59,21 @@ def plans(tier):
         out.append((4, ver, 2, "{1, 2}", "FALSE", "FALSE", "FALSE", 8))
     out.append((5, "10", 2, "{1}", "TRUE", "TRUE", "FALSE", 7))
     out.append((5, "12", 2, "{1}", "FALSE", "TRUE", "FALSE", 7))
-    out.append((5, "2", 2, "{1}", "FALSE", "FALSE", "FALSE", 8))
+    out.append((8, "2", 2, "{1, 2}", "TRUE", "FALSE", "FALSE", 8))     # both, reused event IDs (see quick)
     out.append((5, "org.matrix.hydra.11", 2, "{1}", "TRUE", "FALSE", "FALSE", 8))
     out.append((4, "1", 2, "{1}", "FALSE", "TRUE", "FALSE", 7))
-    out.append((5, "1", 2, "{1}", "TRUE", "FALSE", "FALSE", 8))
+    out.append((8, "1", 2, "{1}", "TRUE", "FALSE", "FALSE", 8))
     out.append((4, "10", 2, "{1}", "TRUE", "FALSE", "TRUE", 8))    # ... with events their sender's level does not allow
+    # power-levels / join-rules events under a non-empty state key: in every state set (Start 7) / only as free
+    # events, i.e. on one fork or on both (Start 6)
+    for ver in ["10", "12"]:
+        out.append((7, ver, 2, "{1}", "FALSE", "TRUE", "FALSE", 10))
+        out.append((6, ver, 2, "{1, 2}", "TRUE", "FALSE", "FALSE", 8))
+    out.append((7, "2", 2, "{1}", "TRUE", "FALSE", "FALSE", 10))
+    out.append((7, "org.matrix.hydra.11", 2, "{1}", "TRUE", "FALSE", "FALSE", 10))
+    out.append((7, "1", 2, "{1}", "FALSE", "TRUE", "FALSE", 10))
+    out.append((6, "1", 2, "{1}", "TRUE", "FALSE", "FALSE", 8))
+    out.append((7, "10", 2, "{1}", "TRUE", "FALSE", "TRUE", 10))
     return out
 
 
@@ -72,7 +87,7 @@ def generate(ctx, on_batch=None):
     jobs = []
     for n, plan in enumerate(plans(ctx.tier)):
         start, ver, mf, ts, idd, tri, dis = plan[:7]
-        ff = plan[7] if len(plan) > 7 and plan[7] is not None else (10 if start == 3 else 5)
+        ff = plan[7] if len(plan) > 7 and plan[7] is not None else (10 if start in (3, 7) else 5)
         addl = plan[8] if len(plan) > 8 else "{}"
         cfg = "Room_gen_%s_%d.cfg" % (ctx.tier, n)
         with open(os.path.join(d, cfg), "w") as f:
